@@ -276,6 +276,10 @@ def c04 (i : RunIn) (o : ORun) : List String :=
      | some _ => if o.res != "agentOpCert" then ["C04.agent-failure-kind"] else []
      | none => []
    else []) ++
+  -- a signer that panics: the CA reply consumed by the first failing call decides (the calls are
+  -- made one after the other, so it is the reply whose index is the number of successful calls)
+  (let okCalls := (tr.takeWhile fun e => match e with | .ca _ false => false | _ => true).filter (·.isCA)
+   if failedCA && i.ca[okCalls.length]? == some CAReply.panic && o.res != "panic" then ["C04.signer-panic-kind"] else []) ++
   -- panics are reported as panics
   (if (i.hs.take (auths tr).length).any panicsInAuth && (gens tr).isEmpty && o.res != "panic" then ["C04.handler-panic-kind"] else []) ++
   (match gens tr with
